@@ -232,6 +232,105 @@ pub fn run(prop: &str, tier: &str, seed: u64, out_dir: &Path, threads: usize) ->
         let (e, _s) = h.join().expect("conc worker");
         events += e;
     }
+    // C16 free-running stress: the cooperative scheduler interleaves threads only at yield points; a lock
+    // acquisition that a change ADDS without a yield point (check under one guard, act under another) is
+    // invisible to it.  Real threads released by a barrier, many rounds per program; every distinct history
+    // must be explained by one of the measured sequential outcomes.
+    let mut c16_rounds = 0u64;
+    if prop == "C16" && std::env::var("VERIF_CFGFILTER").is_err() {
+        let mut out = TraceOut::new(out_dir, "lin-C16-stress");
+        out.per_file = 400;
+        let cx = Conc::new("ascii", 1);
+        let mc = macro_calls(&["a", "a/b", "a/c"]);
+        let inits: Vec<InitMap> = vec![
+            vec![("a", "dir", vec![])],
+            vec![("a", "dir", vec![]), ("a/b", "file", vec![1])],
+            vec![("a", "dir", vec![]), ("a/b", "dir", vec![])],
+        ];
+        // program shapes in which a check and the act it guards race with another thread's mutation of the same
+        // path or its parent (write session / create / remove / read on a/b against remove / create of a/b and a)
+        let mcx = |i: usize| mc[i].clone();
+        let idx = |path: usize, k: usize| path * 8 + k; // macro_calls layout: 8 macro calls per path (0 = "a", 1 = "a/b", 2 = "a/c")
+        let racy: Vec<Vec<Vec<Call>>> = vec![
+            vec![mcx(idx(1, 1)), mcx(idx(1, 3))],                                   // create_file session || remove_file
+            vec![mcx(idx(1, 2)), mcx(idx(1, 3))],                                   // append session || remove_file
+            vec![mcx(idx(1, 1)), [mcx(idx(1, 3)), mcx(idx(0, 4))].concat()],        // session || remove_file; remove_dir(parent)
+            vec![mcx(idx(1, 0)), mcx(idx(0, 4))],                                   // create_dir(a/b) || remove_dir(a)
+            vec![mcx(idx(1, 1)), mcx(idx(0, 4))],                                   // create_file(a/b) || remove_dir(a)
+            vec![mcx(idx(1, 1)), mcx(idx(1, 0))],                                   // create_file || create_dir same path
+            vec![mcx(idx(1, 2)), [mcx(idx(1, 3)), mcx(idx(1, 0))].concat()],        // append || remove_file; create_dir
+            vec![mcx(idx(1, 7)), mcx(idx(1, 1))],                                   // read || rewrite
+            vec![mcx(idx(1, 4)), mcx(idx(2, 1))],                                   // remove_dir(a/b) || create_file(a/c)
+            vec![mcx(idx(0, 4)), mcx(idx(2, 0))],                                   // remove_dir(a) || create_dir(a/c)
+            vec![mcx(idx(1, 1)), mcx(idx(1, 1))],                                   // two sessions on one path
+            vec![mcx(idx(1, 1)), mcx(idx(1, 3)), mcx(idx(1, 5))],                   // session || remove || exists
+        ];
+        let n_random = if q { 30 } else { 500 };
+        for pi in 0..(racy.len() * inits.len() + n_random) {
+            let init = inits[pi % inits.len()].clone();
+            let (progs, rounds): (Vec<Vec<Call>>, usize) = if pi < racy.len() * inits.len() {
+                (racy[pi / inits.len()].clone(), if q { 1500 } else { 40000 })
+            } else {
+                let k = if pi % 5 == 0 { 3 } else { 2 };
+                ((0..k).map(|_| (0..rng.gen_range(1..3)).flat_map(|_| mc.choose(&mut rng).unwrap().clone()).collect()).collect(), if q { 150 } else { 600 })
+            };
+            let k = progs.len();
+            let cx2 = cx.clone();
+            let init2 = init.clone();
+            let mk = move || make_world("mem", &init2, &cx2, &[]);
+            let mut seen: std::collections::BTreeMap<String, (Vec<Vec<String>>, Value)> = std::collections::BTreeMap::new();
+            for _round in 0..rounds {
+                let w = mk();
+                let barrier = Arc::new(std::sync::atomic::AtomicUsize::new(0));
+                let results: Vec<Vec<String>> = std::thread::scope(|sc| {
+                    let hs: Vec<_> = progs
+                        .iter()
+                        .map(|prog| {
+                            let root = w.root.clone();
+                            let b = barrier.clone();
+                            let cxr = &cx;
+                            sc.spawn(move || {
+                                let mut slot = Slot::default();
+                                // spin barrier: all threads start within nanoseconds of each other
+                                b.fetch_add(1, std::sync::atomic::Ordering::SeqCst);
+                                let mut spins = 0u32;
+                                while b.load(std::sync::atomic::Ordering::SeqCst) < k {
+                                    spins += 1;
+                                    if spins > 2000 {
+                                        std::thread::yield_now(); // (an oversubscribed machine: do not burn the partner's time slice)
+                                    } else {
+                                        std::hint::spin_loop();
+                                    }
+                                }
+                                let mut res = vec![];
+                                for c in prog {
+                                    res.push(run_call(&root, cxr, c, &mut slot));
+                                }
+                                if let Some(h) = slot.h.take() {
+                                    let _ = crate::obs::guard(move || drop(h));
+                                }
+                                res
+                            })
+                        })
+                        .collect();
+                    hs.into_iter().map(|h| h.join().unwrap_or_else(|_| vec!["[\"panic\"]".to_string()])).collect()
+                });
+                let fin = crate::conc::snapshot(&w.root, &cx, &universe16);
+                c16_rounds += 1;
+                seen.entry(format!("{:?}|{}", results, fin)).or_insert((results, fin));
+            }
+            let seq = sequential_outcomes(&mk, &cx, &universe16, &progs);
+            for (_k, (results, fin)) in seen {
+                out.begin(&json!({"ev":"hist","prop":"C16","cfg":"mem","job":-1,
+                    "init": init.iter().map(|(p,k,d)| json!({"p":pv(p),"k":k,"d":d})).collect::<Vec<_>>(),
+                    "pre_remove":[],"universe":universe16,
+                    "progs": progs.iter().map(|p| p.iter().map(|c| c.to_json()).collect::<Vec<_>>()).collect::<Vec<_>>(),
+                    "results":parse_results(&results),"final":fin,"stuck":false,"schedule":["free-running"],"seq":seq,"schedules":1,"bound":-1,"truncated":false}));
+                events += 1;
+            }
+        }
+        out.finish();
+    }
     // C17 "randomised stress on PhysicalFS": free-running OS threads (no scheduler: the races are inside the
     // operating-system calls, where no yield point can be placed), released together, many rounds
     let mut stress_rounds = 0u64;
@@ -276,7 +375,7 @@ pub fn run(prop: &str, tier: &str, seed: u64, out_dir: &Path, threads: usize) ->
     }
     let tt = totals.lock().unwrap();
     json!({"cfg":"conc","mode":prop,"names":"ascii","b":1,"events":events,"segments":events,"programs":tt.0,"schedules":tt.1,"histories":tt.2,
-           "max_yield_points":tt.3,"truncated_explorations":tt.4,"free_running_stress_rounds":stress_rounds,"edges_run":tt.1,"distinct_state_ops":tt.2,"samples":*samples.lock().unwrap()})
+           "max_yield_points":tt.3,"truncated_explorations":tt.4,"free_running_stress_rounds":stress_rounds + c16_rounds,"edges_run":tt.1,"distinct_state_ops":tt.2,"samples":*samples.lock().unwrap()})
 }
 
 /// explore ONE program given as JSON {"cfg","init":[{p,k,d}],"pre_remove":[[..]],"progs":[[{op,p,c}]],"bound":n|-1,"prop"}
